@@ -542,3 +542,33 @@ func ZZC06Groups() {
 	zzReach("groups-ok")
 	zzWitness("end")
 }
+
+// ZZC06Invalid: texts the language rejects (every rule-breaking edit of the
+// C05 skeleton, range clauses with surplus operands, stray text after
+// statements). Should a tree accept one of them, nothing of the accepted text
+// may be dropped by the formatter either: the token sequence is compared like
+// for every other accepted text. (On a tree that rejects them all the harness
+// only records that.)
+func ZZC06Invalid() {
+	var texts []string
+	for bi := range zzBreakages {
+		b := &zzBreakages[bi]
+		for _, slot := range strings.Fields(b.slots) {
+			texts = append(texts, zzC05Program(b, slot))
+		}
+	}
+	texts = append(texts,
+		"arr := [1 2]\nfor x := range arr 2\n    print x\nend\n",
+		"arr := [1 2]\nfor x := range arr 1 \"zz\"\n    print x\nend\n",
+		"for x := range \"ab\" 2\n    print x\nend\n",
+		"print 1 ) 2\n", "print [1] ] 3\n", "x := 1 2\nprint x\n", "if true 1\n    print 1\nend\n", "while true\n    break 1\nend\n",
+		"func f\n    print 1\nend extra\nf\n", "x := [1 2] 3\nprint x\n", "x := {a:1} b\nprint x\n", "print (len [1]) )\n")
+	k := zzChoice("text", len(texts))
+	out := zzCheckFormat(texts[k], "invalid text "+strconv.Itoa(k), false)
+	if out == "" {
+		zzReach("invalid-rejected")
+	} else {
+		zzReach("invalid-accepted")
+	}
+	zzWitness("end")
+}
